@@ -6,9 +6,13 @@ package checks
 
 import (
 	"fmt"
+	"regexp"
 	"strconv"
 	"strings"
 )
+
+var xmlDeclRe = regexp.MustCompile(`^\s+version\s*=\s*("1\.[0-9]+"|'1\.[0-9]+')(\s+encoding\s*=\s*("[A-Za-z][-A-Za-z0-9._]*"|'[A-Za-z][-A-Za-z0-9._]*'))?(\s+standalone\s*=\s*("yes"|"no"|'yes'|'no'))?\s*$`)
+var doctypeHeadRe = regexp.MustCompile(`^<!DOCTYPE\s+[A-Za-z_:][-\w:.]*(\s+(SYSTEM\s+("[^"]*"|'[^']*')|PUBLIC\s+("[^"]*"|'[^']*')\s+("[^"]*"|'[^']*')))?\s*(\[[\s\S]*\]\s*)?>$`)
 
 type xAttr struct {
 	Name  string
@@ -91,6 +95,11 @@ func xmlTokenize(s string) ([]xEvent, error) {
 			if k == 0 {
 				return nil, fmt.Errorf("PI without target at %d", i)
 			}
+			if strings.EqualFold(body[:k], "xml") {
+				if body[:k] != "xml" || i != 0 || !xmlDeclRe.MatchString(body[k:]) {
+					return nil, fmt.Errorf("malformed or misplaced XML declaration")
+				}
+			}
 			evs = append(evs, xEvent{Kind: 'P', Name: body[:k], Data: strings.TrimLeft(body[k:], " \t\r\n")})
 			i += 2 + e + 2
 		case strings.HasPrefix(s[i:], "<!DOCTYPE"):
@@ -118,7 +127,22 @@ func xmlTokenize(s string) ([]xEvent, error) {
 			if j >= n {
 				return nil, fmt.Errorf("unterminated DOCTYPE")
 			}
-			evs = append(evs, xEvent{Kind: 'D', Data: s[i : j+1]})
+			dt := s[i : j+1]
+			if !doctypeHeadRe.MatchString(dt) {
+				return nil, fmt.Errorf("malformed DOCTYPE")
+			}
+			if k := strings.IndexByte(dt, '['); k >= 0 {
+				// internal subset: only markup declarations, comments, PIs, PE references and whitespace
+				e := strings.LastIndexByte(dt, ']')
+				if e < k {
+					return nil, fmt.Errorf("unterminated internal subset")
+				}
+				sub := dt[k+1 : e]
+				if err := checkInternalSubset(sub); err != nil {
+					return nil, err
+				}
+			}
+			evs = append(evs, xEvent{Kind: 'D', Data: dt})
 			i = j + 1
 		case strings.HasPrefix(s[i:], "</"):
 			j := i + 2
@@ -311,4 +335,57 @@ func collapseOutsideQuotes(s string) string {
 		sb.WriteByte(c)
 	}
 	return sb.String()
+}
+
+func checkInternalSubset(sub string) error {
+	i := 0
+	for i < len(sub) {
+		c := sub[i]
+		switch {
+		case isXMLSpace(c):
+			i++
+		case c == '%':
+			e := strings.IndexByte(sub[i:], ';')
+			if e < 0 {
+				return fmt.Errorf("bad PE reference in internal subset")
+			}
+			i += e + 1
+		case strings.HasPrefix(sub[i:], "<!--"):
+			e := strings.Index(sub[i+4:], "-->")
+			if e < 0 {
+				return fmt.Errorf("unterminated comment in internal subset")
+			}
+			i += e + 7
+		case strings.HasPrefix(sub[i:], "<?"):
+			e := strings.Index(sub[i:], "?>")
+			if e < 0 {
+				return fmt.Errorf("unterminated PI in internal subset")
+			}
+			i += e + 2
+		case strings.HasPrefix(sub[i:], "<!ENTITY") || strings.HasPrefix(sub[i:], "<!ELEMENT") || strings.HasPrefix(sub[i:], "<!ATTLIST") || strings.HasPrefix(sub[i:], "<!NOTATION"):
+			j := i
+			var q byte
+			for j < len(sub) {
+				if q != 0 {
+					if sub[j] == q {
+						q = 0
+					}
+				} else if sub[j] == '"' || sub[j] == '\'' {
+					q = sub[j]
+				} else if sub[j] == '>' {
+					break
+				} else if sub[j] == '<' && j > i {
+					return fmt.Errorf("< inside markup declaration")
+				}
+				j++
+			}
+			if j >= len(sub) {
+				return fmt.Errorf("unterminated markup declaration in internal subset")
+			}
+			i = j + 1
+		default:
+			return fmt.Errorf("unexpected content in internal subset at %d", i)
+		}
+	}
+	return nil
 }
